@@ -711,10 +711,10 @@ def _p_ms_builder(tier):
 
 
 HARNESSES = [
-    HarnessSpec('complete', h_complete, _p_complete, replay=r_complete, signature=_sig),
+    HarnessSpec('complete', h_complete, _p_complete, witness_replay=True, replay=r_complete, signature=_sig),
     HarnessSpec('exact_single', h_exact_single, _p_exact_single, replay=r_exact, signature=_sig),
     HarnessSpec('exact_scripthash', h_exact_scripthash, _p_exact_sh, replay=r_exact, signature=_sig),
     HarnessSpec('exact_graftroot', h_exact_graftroot, _p_exact_g, replay=r_exact, signature=_sig),
-    HarnessSpec('multisig_lock', h_multisig_lock, _p_ms_lock, replay=r_multisig_lock, signature=_sig),
-    HarnessSpec('multisig_builder', h_multisig_builder, _p_ms_builder, replay=r_multisig_builder, signature=_sig),
+    HarnessSpec('multisig_lock', h_multisig_lock, _p_ms_lock, witness_replay=True, witness_every=25, replay=r_multisig_lock, signature=_sig),
+    HarnessSpec('multisig_builder', h_multisig_builder, _p_ms_builder, witness_replay=True, replay=r_multisig_builder, signature=_sig),
 ]
